@@ -435,7 +435,7 @@ def body(data) -> Outcome:
 def _base_campaigns(tier):
     strat = st.fixed_dictionaries(
         {
-            "prog": dag_programs(max_funcs=6, min_funcs=2, cache=True),
+            "prog": dag_programs(max_funcs=6, min_funcs=2, cache=True, allow_none=True),
             "pick": st.integers(0, 2**16 - 1),
             "cache_type": st.sampled_from([None, None, "lru", "simple"]),
         }
